@@ -553,6 +553,16 @@ def check_imc(r, d, grp, suffix, items, sysd, hists_by_name, vol, tgts, keypfx, 
 # ----------------------------------------------------------------------------------------------------------------------
 # the run
 # ----------------------------------------------------------------------------------------------------------------------
+def sh_retry(ctx, args, d):
+    """ctx.sh with escalating time-outs: a time-out (-999) on a loaded machine is retried, a persistent one is reported"""
+    rc, out = -999, "timeout"
+    for to in (300, 900, 2400):
+        rc, out = ctx.sh(args, cwd=d, timeout=to)
+        if rc != -999:
+            break
+    return rc, out
+
+
 def run_case(case, ctx, d):
     r = R()
     sysd = build_system(case)
@@ -606,7 +616,7 @@ def run_case(case, ctx, d):
         r.discard = True
         return r
     vols = [float(np.prod(frames[f]["box"])) for f in sel]
-    rc, out = ctx.sh(args, cwd=d, timeout=300)
+    rc, out = sh_retry(ctx, args, d)
     if sanitizer_report(out):
         return r.fail("csg_stat/sanitizer", out[-1500:])
     if rc != 0:
@@ -693,7 +703,7 @@ def run_case(case, ctx, d):
                     os.symlink(os.path.join(d, fn), os.path.join(d2, fn))
             a2 = ["csg_stat", "--top", "topol.xml", "--trj", trjname, "--options", "opt.xml", "--first-frame", str(f0 + (k - 1) * bl),
                   "--nframes", str(bl)] + (["--do-imc"] if imc else []) + (["--include-intra"] if include_intra else [])
-            rc2, out2 = ctx.sh(a2, cwd=d2, timeout=300)
+            rc2, out2 = sh_retry(ctx, a2, d2)
             if rc2 != 0 or sanitizer_report(out2):
                 return r.fail("csg_stat/nonzero-exit", f"{' '.join(a2)} -> exit {rc2}: {out2[-1200:]}")
             vol = float(np.mean([vols[f] for f in range((k - 1) * bl, k * bl)]))
